@@ -35,6 +35,11 @@ func c15Configs() []*cfg.Config {
 		{Meta: meta(), Params: []cfg.KV{{K: "p0", V: S(`%todo("not  yet.  Ask ops,\tthen retry ")%`)}, {K: "p1", V: S("%p0%:8080")}},
 			Services: []cfg.Service{{Name: "s0", Constructor: cfg.P("pa.New"), Args: []cfg.Val{S("a%p1%b"), S("%p0%%p0%-%fnint()%")}}, {Name: "s1", Constructor: cfg.P("pa.New"), Args: []cfg.Val{S("@s0"), S("%p0%-%p1%")},
 				Fields: []cfg.KV{{K: "F2", V: S("%%%p0%%%x")}}}}},
+		// a todo service declared with a tag that only it carries, and a decorator on that tag: the real service registered at
+		// run time under that tag is decorated like any other
+		{Meta: meta(), Params: []cfg.KV{{K: "p0", V: S("v")}, {K: "p1", V: cfg.Int(1)}},
+			Services: []cfg.Service{{Name: "s0", Todo: cfg.P(true), Tags: []cfg.Tag{{Name: "t"}}}, {Name: "s1", Constructor: cfg.P("pa.New"), Args: []cfg.Val{S("@s0"), S("!tagged t")}}},
+			Decorators: []cfg.Decorator{{Tag: "t", Decorator: "pa.DecSame", Args: []cfg.Val{S("%p1%"), S("%p0%")}}, {Tag: "u", Decorator: "pa.DecSame"}}},
 		{Meta: meta(), Params: []cfg.KV{{K: "p0", V: S("%todo()%")}, {K: "p1", V: cfg.Int(1)}},
 			Services: []cfg.Service{{Name: "s0", Constructor: cfg.P("pa.New"), Args: []cfg.Val{S("%p0%")}, Scope: cfg.P("contextual")}, {Name: "s1", Constructor: cfg.P("pa.New"), Args: []cfg.Val{S("@s0"), S("%p1%")},
 				Fields: []cfg.KV{{K: "F1", V: S("%p0%")}}}}},
@@ -48,14 +53,14 @@ func c15Alphabet() []probe.Op {
 		{Op: "get", Name: "s0"}, {Op: "get", Name: "s1"},
 		{Op: "overrideparam", Name: "p0", Deps: []probe.DepSpec{{Dep: "value", T: "string", V: "ov0"}}},
 		{Op: "overrideparam", Name: "p1", Deps: []probe.DepSpec{{Dep: "value", T: "int", V: "77"}}},
-		{Op: "overridesvc", Name: "s0", Ctor: "fixt/pb.New", Deps: []probe.DepSpec{{Dep: "value", T: "string", V: "ovs0"}, {Dep: "param", Name: "p0"}}},
+		{Op: "overridesvc", Name: "s0", Ctor: "fixt/pb.New", Deps: []probe.DepSpec{{Dep: "value", T: "string", V: "ovs0"}, {Dep: "param", Name: "p0"}}, Tags: []probe.TagSpec{{Name: "t", Prio: 0}}},
 		{Op: "overridesvc", Name: "s1", Ctor: "fixt/pa.NewVal", Deps: []probe.DepSpec{{Dep: "service", Name: "s0"}}},
 	}
 }
 
 func checkC15(c *Ctx) error {
 	maxLen := c.Pick(3, 5)
-	c.Rule = fmt.Sprintf("(1) histories: every sequence of length <=%d over {GetParam p0/p1, Get s0/s1, OverrideParam p0/p1, OverrideService s0/s1} on seven small configurations (param->param->service->service chains with todo parameters/services at each position, tags, a decorator, explicit scopes), plus seeded longer histories; each history runs on a fresh generated container and is compared with the reference container; results that touch a cache entry filled before an override are recorded but not judged (the statement only speaks about dependants not yet constructed); function invocation counters are read right after construction (laziness) and at the end; (2) every subset of definitions marked todo is run through the real binary and must be accepted. distinct = distinct (configuration, history); non-trivial = history contains >=1 override or touches a todo definition", maxLen)
+	c.Rule = fmt.Sprintf("(1) histories: every sequence of length <=%d over {GetParam p0/p1, Get s0/s1, OverrideParam p0/p1, OverrideService s0/s1} on eight small configurations (the real service overriding a todo service carries a tag) (param->param->service->service chains with todo parameters/services at each position, tags, a decorator, explicit scopes), plus seeded longer histories; each history runs on a fresh generated container and is compared with the reference container; results that touch a cache entry filled before an override are recorded but not judged (the statement only speaks about dependants not yet constructed); function invocation counters are read right after construction (laziness) and at the end; (2) every subset of definitions marked todo is run through the real binary and must be accepted. distinct = distinct (configuration, history); non-trivial = history contains >=1 override or touches a todo definition", maxLen)
 	c.Assumptions = []string{"reference container engine/ref with caches", "OverrideParam/OverrideService definitions are built by the probe from fixture constructors"}
 	lab, err := probe.NewLab(c.W)
 	if err != nil {
